@@ -23,6 +23,8 @@ use std::time::Duration;
 
 #[path = "c16/gen.rs"]
 mod gen;
+#[path = "c16/macros.rs"]
+mod macros;
 use gen::{Prog, gen_stream};
 
 // ---------------------------------------------------------------------------------------------
@@ -215,14 +217,19 @@ fn child_main(argv: &[String]) {
         .get(3)
         .map(|s| s.split(',').filter_map(|x| x.parse().ok()).collect())
         .unwrap_or_default();
-    let progs = gen_stream(seed, tier == "thorough");
-    let mut progress = |i: usize| {
+    fn print_start(i: usize) {
         let so = std::io::stdout();
         let mut so = so.lock();
         let _ = writeln!(so, "START {}", i);
         let _ = so.flush();
+    }
+    let res = if mode.starts_with("m-") {
+        macros::run_mhistory(mode, seed, tier == "thorough", print_start)
+    } else {
+        let progs = gen_stream(seed, tier == "thorough");
+        let mut progress = |i: usize| print_start(i);
+        run_history(mode, &progs, seed, &skip, &mut progress)
     };
-    let res = run_history(mode, &progs, seed, &skip, &mut progress);
     let so = std::io::stdout();
     let mut so = so.lock();
     for (i, o) in res {
@@ -382,6 +389,93 @@ fn diff_class(a: &str, b: &str, kind: &str) -> String {
         }
     }
     format!("{}:{}", kind, masked)
+}
+
+/// Split a diagnostics text into its error blocks.
+fn error_blocks(o: &str) -> Vec<String> {
+    let mut blocks = vec![];
+    let mut cur = String::new();
+    for line in o.lines() {
+        if (line.starts_with("error") || line.starts_with("err|error")) && !cur.is_empty() {
+            blocks.push(std::mem::take(&mut cur));
+        }
+        cur.push_str(line.strip_prefix("err|").unwrap_or(line));
+        cur.push('\n');
+    }
+    if !cur.is_empty() {
+        blocks.push(cur);
+    }
+    blocks
+}
+
+/// Oracle over the stream of programs with several failing macro expansions (macros.rs).
+fn oracle_macros(out: &mut Out, args: &Args) {
+    let progs = macros::gen_mstream(args.seed, args.thorough());
+    let mut hist: Vec<(String, Vec<(usize, String)>)> = vec![];
+    for mode in macros::MODES {
+        match run_child(mode, &args.tier, args.seed, &Default::default()) {
+            Ok(v) => hist.push((mode.to_string(), v)),
+            Err(e) => {
+                println!("history {} could not be completed in a child process ({:?})", mode, e);
+                std::process::exit(3);
+            }
+        }
+    }
+    let mut reference: BTreeMap<usize, (String, String)> = BTreeMap::new();
+    let mut reported = std::collections::BTreeSet::new();
+    for (hname, obs) in &hist {
+        out.add(&format!("observations:{}", hname), obs.len() as u64);
+        for (i, o) in obs {
+            match reference.get(i) {
+                None => {
+                    reference.insert(*i, (hname.clone(), o.clone()));
+                }
+                Some((h0, o0)) => {
+                    out.count("comparisons:macro");
+                    if o0 != o {
+                        let mut b0 = error_blocks(o0);
+                        let mut b1 = error_blocks(o);
+                        b0.sort();
+                        b1.sort();
+                        let fp = if mask_after(o0, "implicit?") == mask_after(o, "implicit?") {
+                            "nondet:diag:implicit?N".to_string()
+                        } else if b0 == b1 {
+                            // same error blocks, different order
+                            "nondet:diag:macro-expansion-errors-permuted".to_string()
+                        } else {
+                            format!("nondet:diag:{}", diff_class(o0, o, "macro"))
+                        };
+                        if reported.insert((fp.clone(), *i)) {
+                            let p = &progs[*i];
+                            out.oracle_fail(
+                                &fp,
+                                &format!(
+                                    "program #{} with several failing macro expansions ({}) observed differently under history {} and {}",
+                                    i, p.shape, h0, hname
+                                ),
+                                serde_json::json!({
+                                    "stream": "macro", "index": i, "seed": args.seed, "tier": args.tier,
+                                    "name": p.name, "src": p.src, "modules": p.mods,
+                                    "history_a": h0, "obs_a": o0, "history_b": hname, "obs_b": o,
+                                }),
+                            );
+                        }
+                    }
+                }
+            }
+        }
+    }
+    for (i, p) in progs.iter().enumerate() {
+        out.count("kind:macro-errors");
+        if let Some((_, o)) = reference.get(&i) {
+            let n = error_blocks(o).len().min(9);
+            out.count(&format!("macro:error-blocks:{}", n));
+            out.class(format!("macro|{}|{}", p.shape, n));
+            if i % 23 == 5 {
+                out.sample(serde_json::json!({"src": p.src, "obs": o}));
+            }
+        }
+    }
 }
 
 fn oracle(out: &mut Out, args: &Args, progs: &[Prog]) {
@@ -991,5 +1085,6 @@ fn main() {
     // oracle
     let progs = gen_stream(args.seed, args.thorough());
     oracle(&mut out, &args, &progs);
+    oracle_macros(&mut out, &args);
     out.finish();
 }
